@@ -1156,6 +1156,70 @@ fn include_is_too_new(
     false
 }
 
+/// Verification hook: the private include recorder on the real file system.
+#[cfg(sccache_verif)]
+#[allow(clippy::too_many_arguments)]
+pub fn verif_remember_include_file(
+    path: &[u8],
+    input_file: &Path,
+    cwd: &Path,
+    included_files: &mut HashMap<PathBuf, String>,
+    system: bool,
+    config: PreprocessorCacheModeConfig,
+    time_of_compilation: std::time::SystemTime,
+) -> Result<(bool, String)> {
+    let mut digest = Digest::new();
+    let ok = remember_include_file(
+        path,
+        input_file,
+        cwd,
+        included_files,
+        &mut digest,
+        system,
+        config,
+        time_of_compilation,
+        &StandardFsAbstraction,
+    )?;
+    Ok((ok, digest.finish()))
+}
+
+/// Verification hook: the private line-marker scanner on the real file system.
+#[cfg(sccache_verif)]
+pub fn verif_process_preprocessed_file(
+    input_file: &Path,
+    cwd: &Path,
+    bytes: &mut [u8],
+    included_files: &mut HashMap<PathBuf, String>,
+    config: PreprocessorCacheModeConfig,
+    time_of_compilation: std::time::SystemTime,
+) -> Result<bool> {
+    process_preprocessed_file(
+        input_file,
+        cwd,
+        bytes,
+        included_files,
+        config,
+        time_of_compilation,
+        StandardFsAbstraction,
+    )
+}
+
+/// Verification hook: `include_is_too_new` on explicit time stamps.
+#[cfg(sccache_verif)]
+pub fn verif_include_is_too_new(
+    mtime: Option<Timestamp>,
+    ctime: Option<Timestamp>,
+    time_of_compilation: std::time::SystemTime,
+) -> bool {
+    let meta = PreprocessorFileMetadata {
+        is_dir: false,
+        is_file: true,
+        modified: mtime,
+        ctime_or_creation: ctime,
+    };
+    include_is_too_new(Path::new("verif"), &meta, time_of_compilation)
+}
+
 impl<T: CommandCreatorSync, I: CCompilerImpl> Compilation<T> for CCompilation<I> {
     fn generate_compile_commands(
         &self,
